@@ -57,6 +57,8 @@ func matrixTemplates() map[string]*model.Set {
 	t["lower-half"] = rng(0, 32767)
 	t["holes"] = model.AndNot(rng(0, 65535), step(5, 64, 1024))
 	t["sparse-tail"] = model.Or(rng(0, 9999), step(20000, 7, 1500))
+	t["evens-from-8190"] = step(8190, 2, 2000)   // touches evens4096 in exactly one value
+	t["thirds-up-to-8190"] = step(8190-3*1500, 3, 1501) // ends where evens-from-8190 starts
 	return t
 }
 
